@@ -3,3 +3,8 @@ add("C02", "model_checking",
     "Every state reachable by build/append/append_third_party/seal/convert/reload histories up to the stated depth, over both key algorithms in every position, is reloaded through all four load paths and compared (views, bytes); every signature is re-verified by an independent implementation of the specification's payload layouts (R-sig) and the declared signature versions are compared with the prescribed ones.",
     "Deterministic key pool instead of OS RNG; ed25519-dalek/p256 primitives trusted; bound = depth after build (quick 2, thorough 3) over contents {b0,b3,b5,t0}.",
     "DESIGN.md §3 C02")
+add("C01", "fault_enumeration",
+    "exhaustive structured/algebraic/byte-level fault enumeration over an E-hist corpus of real tokens, plus pruned DFS attacker-assembly search decided by the real verifier",
+    "For every token reachable by real API histories (both algorithms in every position, signature versions 0/1, first/third-party, sealed/unsealed) every single-field mutation, splice with every value of its partner tokens, block delete/duplicate/transpose/insert, proof operator, signature-algebra operator (ECDSA s-negation, DER re-encodings, ed25519 S+L, key re-encodings), wrong root and (per class) every bit flip / deletion / truncation is presented to the real loaders; thorough adds an exhaustive recombination search over pairs of tokens. Oracle: refused, or exactly the same signed content (or exactly another honestly issued token).",
+    "Cryptographic hardness assumed; only recombinations/transformations of honestly produced material are enumerated; bound = corpus depth (quick 1, thorough 2 ops after build).",
+    "DESIGN.md §3 C01")
